@@ -522,11 +522,16 @@ where
     /// Returns an iterator over all the entries in the routing table to give to a table filter.
     ///
     /// This differs from the regular iterator as it doesn't take ownership of self and doesn't try
-    /// to apply any pending nodes.
+    /// to apply any pending nodes. The values of pending nodes are included: a pending node is
+    /// promoted without consulting the table filter again, so it has to count towards the
+    /// filter's limits from the moment it is parked.
     fn table_iter(&self) -> impl Iterator<Item = &TVal> {
-        self.buckets
-            .iter()
-            .flat_map(move |table| table.iter().map(|n| &n.value))
+        self.buckets.iter().flat_map(move |table| {
+            table
+                .iter()
+                .map(|n| &n.value)
+                .chain(table.pending().map(|pending| pending.value()))
+        })
     }
 
     /// Returns an iterator over all the entries in the routing table.
